@@ -172,6 +172,7 @@ class Executor(object):
         self._for_covers = {}
         self._loops_done = set()
         self.stats = dict(feasibility_checks=0, paths=0)
+        self.dtype_tags = {}                  # id(value) -> (tag, value): opt-in provenance of an array's dtype (`x.dtype` then names the tag)
         self.borrowed = {}                    # id(value object) -> description: arrays the caller of the verified function still holds
 
     # ------------------------------------------------------------------------------------------
@@ -558,10 +559,10 @@ class Executor(object):
             if attr == "shape":
                 return [(st, (v.length,))]
             if attr == "dtype":
-                return [(st, "dtype")]
+                return [(st, "dtype:" + self.dtype_tags[id(v)][0] if id(v) in self.dtype_tags else "dtype")]
             return [(st, BoundMethod(v, attr))]
         if attr == "dtype":
-            return [(st, "dtype")]
+            return [(st, "dtype:" + self.dtype_tags[id(v)][0] if id(v) in self.dtype_tags else "dtype")]
         if attr == "shape" and (is_z3(v) or isinstance(v, (int, Fraction, LinComb, BlockVec))):
             # element-wise lifting: the element is slot 0 of a length-1 view of the vector
             return [(st, (1,) if ctx.lifted else ())]
@@ -2200,6 +2201,9 @@ class Executor(object):
             ghost[n] = self.make_param(n, srt, st)
         self.last_inputs = dict(args)
         self.last_inputs.update(ghost)
+        for n, tag in (getattr(c, "dtypes", None) or {}).items():
+            if n in args:
+                self.dtype_tags[id(args[n])] = (tag, args[n])
         ctx = Ctx(fi, c, fi.cls, lifted=c.lifted, tag=fi.qualname)
         st.env = dict(args)
         st.env.update(ghost)
